@@ -443,6 +443,12 @@ class Product:
             1 for r in self.x2c if r[0] == 1 or (r[0] == 0 and r[4] in (ord("4"), ord("5")) and r[2]))
         if outstanding > 1:
             bad.append(("%d cancel/replace requests outstanding" % outstanding, "outstanding"))
+        if stv in ("0", "1", "9"):
+            # C16: cancel / replace requests are permitted exactly for new, partially filled and suspended orders - by the
+            # status alone, whatever quantities earlier reports left in the object
+            for name, can in (("cancel", o.can_cancel), ("replace", o.can_replace)):
+                if not can():
+                    bad.append(("order in status %s does not permit a %s request" % (stv, name), "permit"))
         root = o.clord_root(self.init[0])
         for name, can, req in (("cancel", o.can_cancel, lambda c: c.cancel_req()),
                                ("replace", o.can_replace, lambda c: c.replace_req(val(num(o.price) + UNIT), math.nan))):
